@@ -15,6 +15,7 @@ Lines:
   `aug <asIs|fixed> <ia> <ga>`    get_aug_config
   `backbone <a>` `head <a>` `lrs <a>`
   `data <asIs|fixed> <args>` `model <args>` `modelraw <args>` `trainer <args>`
+  `train <args>`                  the config `train()` hands to run_training
   `mk <Class> <kwargs>`           attrs constructor + validators
   `which <name|value> <Class> <kwargs> <assignments>`   construct, assign attributes in order (a node whose
                                   entries may repeat a key), then which_oneof_attrib_name() / which_oneof()
@@ -144,6 +145,10 @@ def step (s : St) (line : String) : St × String :=
   | "trainer" :: rest =>
     match runP pCfg rest with
     | some a => (s, out (getTrainerConfig s.env (argsOf a)))
+    | none => (s, "bad-op")
+  | "train" :: rest =>
+    match runP pCfg rest with
+    | some a => (s, out (trainCfg s.env (argsOf a)))
     | none => (s, "bad-op")
   | "mk" :: c :: rest =>
     match runP pCfg rest with
